@@ -239,6 +239,14 @@ func TestC13_SingleViolation(t *testing.T) {
 		if l := svcListOf(p); len(l) > 0 && rapid.IntRange(0, 3).Draw(t, "boundaryType") == 0 {
 			l[0].(map[string]interface{})["type"] = strings.Repeat("t", rapid.SampledFrom([]int{1, 30}).Draw(t, "typeLen"))
 		}
+		if ids, ok := p["ids"].([]interface{}); ok && len(ids) > 0 && rapid.IntRange(0, 2).Draw(t, "repeatedRemoveID") == 0 {
+			// the constraint on remove lists is "non-empty, every id valid": naming an id twice is not a violation
+			again := ids[rapid.IntRange(0, len(ids)-1).Draw(t, "repeatWhich")]
+			pos := rapid.IntRange(0, len(ids)).Draw(t, "repeatAt")
+			l := append([]interface{}{}, ids[:pos]...)
+			l = append(l, again)
+			p["ids"] = append(l, ids[pos:]...)
+		}
 		if err := validateValue(p); err != nil {
 			t.Fatalf("C13 valid %s patch refused: %v\n %s", action, err, refJCS(p))
 		}
